@@ -174,7 +174,7 @@ def step (s : S) (line : String) : S × String :=
     match which with
     | none => (s, "nomsa")
     | some m =>
-      match fetchFromMSA m ((argNat? ws "i").getD 0) with
+      match (if ((argInt? ws "i").getD 0) < 0 then none else fetchFromMSA m ((argInt? ws "i").getD 0).toNat) with
       | none => (s, "eod")
       | some f =>
         let seqS := if m.isDigital then (if f.seq.isEmpty then "-" else hexOfBytes f.seq) else oStr (some f.seq)
